@@ -43,9 +43,15 @@ func VH_C19_hooks() {
 	kind, mode, q := vndParam("kind"), vndParam("mode"), vndParam("q")
 	fault := vndParam("fault") // 0 none, 2 EOF, 3 I/O error (after the complete or partial reply)
 	x := vhMakeExchange(kind, mode, q, vndParam("exc") == 1)
-	s := &vhScript{reply: x.reply, fault: fault}
+	wire := x.reply
+	if extra := vndParam("extra"); extra > 0 {
+		// bytes that follow the reply on the wire (a late answer to an earlier request, line noise): whatever the
+		// client makes of them, the hooks still see exactly what was read
+		wire = append(append([]byte{}, x.reply...), vndBytes("trailing", extra, 0)...)
+	}
+	s := &vhScript{reply: wire, fault: fault}
 	E := x.req.ExpectedResponseLength()
-	upTo := len(x.reply)
+	upTo := len(wire)
 	if fault != 0 {
 		set := vhCutSet(upTo, E)
 		upTo = set[vndChoice("prefix", len(set))]
